@@ -1701,7 +1701,18 @@ async fn run_case(cx: &mut Cx<'_>, p: &Params, rng: &mut Rng, kind: Kind) {
 
 	shape.u64(traffic2.len() as u64);
 	let flow = run_flows(&mut w, cx, p, rng, kind, &pairs, &traffic, &traffic2, &mut live, rescue, &mut shape).await;
-	let _ = flow;
+	if flow == Flow::Stop {
+		// links that were merely not waited for because something else ended the case are not judged
+		// for completeness (the link that caused the stop is down, damaged or marked already)
+		for li in 0..w.links.len() {
+			if !w.links[li].ctl.going_down() && !w.links[li].is_dup && !w.delivered(li) && w.links[li].disturbed.is_none() && !(w.links[li].fault.is_some() && w.links[li].fault_applied()) {
+				let mine = matches!(cx.rep.violations.last(), Some(v) if v.detail.starts_with(&format!("link {} ", li)));
+				if !mine {
+					w.links[li].disturbed = Some("the case was stopped early because of another link".to_string());
+				}
+			}
+		}
+	}
 	teardown(&mut w, cx, p).await;
 	evaluate(&w, cx);
 	harvest(&w, cx);
